@@ -18,6 +18,15 @@ PID = "SYSTEM"
 _MD = {}
 
 
+def _env_print(env):
+    """What a block rule may leave in env, as far as the contracts care: the keys, and how many definitions /
+    duplicates are recorded."""
+    try:
+        return (tuple(sorted(map(str, env))), len(env.get("references", ())), len(env.get("duplicate_refs", ())))
+    except Exception:
+        return None
+
+
 def wrapped(cfgkey):
     if cfgkey in _MD:
         return _MD[cfgkey]
@@ -57,6 +66,7 @@ def wrapped(cfgkey):
                 depth[0] += 1
                 t0 = (state.bMarks[:], state.eMarks[:], state.tShift[:], state.sCount[:], state.bsCount[:],
                       state.blkIndent, state.listIndent, state.parentType)
+                env0 = _env_print(state.env)
                 try:
                     r = fn(state, startLine, endLine, silent)
                 finally:
@@ -66,7 +76,8 @@ def wrapped(cfgkey):
                 ctx = 1 if (state.blkIndent, state.listIndent) == t0[5:7] else 0
                 pty = 1 if state.parentType == t0[7] else 0
                 log[slot] = ["b", name, 1 if silent else 0, 1 if r else 0, startLine, endLine, l0, state.line, n0,
-                             len(state.tokens), v0, state.level, same, ctx, pty, depth[0] + 1]
+                             len(state.tokens), v0, state.level, same, ctx, pty, depth[0] + 1,
+                             1 if _env_print(state.env) == env0 else 0]
                 return r
             return w
         md.block.ruler.at(name, mkb(), {"alt": alt.get(name, [])})
